@@ -247,6 +247,7 @@ func init() {
 			ruleWriter2Split(c, r, "")
 			ruleMatchLen(c, r, "")
 			ruleBlockSizeDefault(c, r, "")
+			ruleHashChain(c, r, "")
 		},
 	})
 }
